@@ -278,3 +278,15 @@ def isinstance_test(test, var: str = None):
     ts = t.elts if isinstance(t, ast.Tuple) else [t]
     return x, [src(e) for e in ts]
   return None
+
+
+def isinstance_test_pol(test, var: str = None):
+  """Like isinstance_test but sees through `not`: returns (x_src, [types], positive) or None."""
+  pos = True
+  while isinstance(test, ast.UnaryOp) and isinstance(test.op, ast.Not):
+    pos = not pos
+    test = test.operand
+  r = isinstance_test(test, var)
+  if r is None:
+    return None
+  return r[0], r[1], pos
